@@ -122,6 +122,20 @@ func TamperCases(js []byte, r *vh.Rng) ([]Tamper, error) {
 					seen[p] = true
 					emit(l, fmt.Sprintf("bit-flip@%d", p), flipHexChar(v, p), false)
 				}
+				if strings.HasSuffix(l.path[len(l.path)-1], "Params") && len(v) == 176 {
+					// scrypt parameters: salt(32) digest(32) N R P (8 bytes each, little endian): degenerate cost values
+					set := func(off int, val byte) string {
+						b := []byte(v)
+						copy(b[off:off+16], "0000000000000000")
+						copy(b[off:off+2], fmt.Sprintf("%02x", val))
+						return string(b)
+					}
+					emit(l, "cost:N=0", set(128, 0), false)
+					emit(l, "cost:N=1", set(128, 1), false)
+					emit(l, "cost:N=3", set(128, 3), false)
+					emit(l, "cost:R=0", set(144, 0), false)
+					emit(l, "cost:P=0", set(160, 0), false)
+				}
 				emit(l, "truncate-1-byte", v[:len(v)-2], false)
 				emit(l, "drop-first-byte", v[2:], false)
 				emit(l, "extend-1-byte", v+"00", false)
